@@ -1,6 +1,8 @@
 package main
 
 import (
+	"os"
+	"fmt"
 	"go/token"
 	"go/types"
 	"sort"
@@ -394,6 +396,99 @@ func c11Arch(c *Ctx, p *Prog) {
 			held[f] = p.heldAt(f, sums)
 		}
 		return held[f]
+	}
+	// ---- R7: the code that runs inside a call of an already mocked function (the MakeFunc callback, condition selection,
+	// Match/Eval/Result and what they call in the root and arg packages) is executed by any number of goroutines at once:
+	// it writes memory that other callers can see only through sync/atomic or under a lock
+	{
+		var roots []*ssa.Function
+		for _, f := range p.FuncsIn("") {
+			for _, cs := range callsTo(f, "reflect.MakeFunc") {
+				switch x := callCommon(cs).Args[1].(type) {
+				case *ssa.MakeClosure:
+					if fn, ok := x.Fn.(*ssa.Function); ok {
+						roots = append(roots, fn)
+						if fn.Synthetic != "" {
+							// bound-method wrapper: the method it forwards to
+							eachInstr(fn, func(j ssa.Instruction) {
+								if ci, ok := j.(ssa.CallInstruction); ok {
+									if cal := staticCallee(ci.Common()); cal != nil && cal.Blocks != nil {
+										roots = append(roots, cal)
+									}
+								}
+							})
+						}
+					}
+				case *ssa.Function:
+					roots = append(roots, x)
+				}
+			}
+		}
+		reach := p.modReach(roots...)
+		var fns []*ssa.Function
+		for f := range reach {
+			if rp := relPkg(f); (rp == "" || rp == "arg") && f.Blocks != nil {
+				fns = append(fns, f)
+			}
+		}
+		sort.Slice(fns, func(i, j int) bool { return fns[i].String() < fns[j].String() })
+		if os.Getenv("GOOMVET_DEBUG") != "" {
+			for _, f := range fns {
+				fmt.Println("  call-path fn", shortName(f))
+			}
+		}
+		nW := 0
+		for _, f := range fns {
+			held := heldIn(f)
+			eachInstr(f, func(i ssa.Instruction) {
+				why := ""
+				switch x := i.(type) {
+				case *ssa.Store:
+					if !isLocalAddr(x.Addr) {
+						why = "store to shared memory"
+					}
+				case *ssa.MapUpdate:
+					if _, fresh := x.Map.(*ssa.MakeMap); !fresh {
+						why = "map update"
+					}
+				case *ssa.Call:
+					if bi, ok := x.Call.Value.(*ssa.Builtin); ok && bi.Name() == "append" {
+						// append writes in place when the destination has spare capacity: a destination that comes from a field
+						// or a global is shared between the callers
+						dst := x.Call.Args[0]
+						for {
+							if sl, isSl := resolveLocal(dst).(*ssa.Slice); isSl {
+								dst = sl.X
+								continue
+							}
+							break
+						}
+						for _, a := range origins(dst) {
+							if a.Kind == "field" || a.Kind == "global" {
+								why = "append into a buffer kept in " + a.Name
+							}
+						}
+					}
+				}
+				if why == "" {
+					return
+				}
+				if len(held[i]) > 0 {
+					return
+				}
+				// mocker configuration methods are not on the call path even if the call graph reaches them through interfaces
+				if f.Object() != nil && f.Object().Exported() && f.Signature.Recv() != nil && relPkg(f) == "" && !strings.HasPrefix(f.Name(), "Match") && f.Name() != "Result" && f.Name() != "Eval" {
+					return
+				}
+				nW++
+				r.Bad("C11.R7", "shared write on the call path in "+shortName(f), p.Pos(posOf(i)), why+" in code that concurrent callers of a mocked function execute, neither through sync/atomic nor under a lock: callers overwrite each other's state (a reused argument buffer, a remembered last result) and are answered with another caller's data")
+			})
+		}
+		if len(roots) == 0 {
+			r.Und("C11.R7", "stub callbacks", "", "no reflect.MakeFunc callback found in the root package")
+		} else if nW == 0 {
+			r.OK("C11.R7", "call path of a mocked function writes shared memory only atomically", "", fmt.Sprintf("%d functions reachable from the stub callbacks", len(fns)))
+		}
 	}
 	// public API = exported functions/methods of the root package
 	api := map[*ssa.Function]bool{}
